@@ -21,13 +21,16 @@ Proved here, for every valid file, every `n`, every reachable state:
                            progress that step is not the start of another call
                            (`conc_call_not_stuck`): a Read waiting in `nextWork`, a cancel and a
                            Close are never stuck;
+* `conc_call_returns`      … and every call RETURNS after finitely many steps, whatever the order in
+                           which the goroutines take them (`conc_no_infinite_internal_run`: a potential
+                           decreases with every protocol step);
 * `conc_tiling`            the ranges in flight tile the rest of the region of interest exactly
                            once and in order (the invariant behind the two theorems above);
 * `conc_close_joins_data`, `conc_buffers_conserved_data`, `conc_no_stale_data`
                            the protocol theorems of Props/C14Conc.lean hold of this model too
                            (it refines the protocol model: `ConcD.sim_step`).
 -/
-import WuffsVerif.Proof.RacConcDataLive2
+import WuffsVerif.Proof.RacConcDataTerm
 
 set_option linter.unusedVariables false
 set_option linter.unusedSimpArgs false
@@ -109,6 +112,80 @@ theorem conc_items_good (F : File) (hok : F.ok) (n : Nat) (s : DSt) (h : ReachD 
   · exact ⟨(hd.resc it hit).ne, (hd.resc it hit).le, (hd.resc it hit).data⟩
   · exact ⟨(hd.comp it hit).ne, (hd.comp it hit).le, (hd.comp it hit).data⟩
   · exact ⟨(hd.curr it hit).ne, (hd.curr it hit).le, (hd.curr it hit).data⟩
+
+/-! ### every call returns -/
+
+theorem execD_append {F : File} : ∀ (ls : List DLabel) (s s' : DSt) (l : DLabel) (s'' : DSt),
+    execD F s ls = some s' → stepD F s' l = some s'' → execD F s (ls ++ [l]) = some s''
+  | [], s, s', l, s'', h1, h2 => by
+    simp only [execD] at h1; cases h1
+    simp only [List.nil_append, execD, h2]
+  | x :: xs, s, s', l, s'', h1, h2 => by
+    simp only [execD] at h1
+    split at h1
+    · next s1 hs1 =>
+      simp only [List.cons_append, execD, hs1]
+      exact execD_append xs s1 s' l s'' h1 h2
+    · cases h1
+
+theorem reachD_step {F : File} {n : Nat} {s s' : DSt} (l : DLabel) (h : ReachD F n s) (hs : stepD F s l = some s') :
+    ReachD F n s' := by
+  obtain ⟨ls, hls⟩ := h
+  exact ⟨ls ++ [l], execD_append ls _ _ l _ hls hs⟩
+
+/-- a step of the protocol (of any goroutine) that is not the start of an API call -/
+def IStep (F : File) (s s' : DSt) : Prop := ∃ l, (∀ op, l ≠ DLabel.call op) ∧ stepD F s l = some s'
+
+theorem no_infinite_descent {α : Type} {r : α → α → Prop} (wf : WellFounded r) (g : Nat → α) :
+    ¬ ∀ i, r (g (i + 1)) (g i) := by
+  intro h
+  have key : ∀ a, ∀ g : Nat → α, g 0 = a → (∀ i, r (g (i + 1)) (g i)) → False := by
+    intro a
+    refine wf.induction a ?_
+    intro x ih g hg hch
+    exact ih (g 1) (by rw [← hg]; exact hch 0) (fun i => g (i + 1)) rfl (fun i => hch (i + 1))
+  exact key (g 0) g rfl h
+
+/-- **No livelock: the protocol cannot run forever without a new call.**  From a reachable state
+    there is no infinite sequence of protocol steps (of `main` inside a call, the Manager, the
+    Workers — in any order, fair or not): the potential of Proof/RacConcDataTerm.lean decreases with
+    each of them. -/
+theorem conc_no_infinite_internal_run (F : File) (hok : F.ok) (n : Nat) (f : Nat → DSt)
+    (h0 : ReachD F n (f 0)) : ¬ ∀ i, IStep F (f i) (f (i + 1)) := by
+  intro hall
+  have hreach : ∀ i, ReachD F n (f i) := by
+    intro i
+    induction i with
+    | zero => exact h0
+    | succ i ih =>
+      obtain ⟨l, _, hs⟩ := hall i
+      exact reachD_step l ih hs
+  have wf : WellFounded (Prod.Lex Nat.lt Nat.lt) := (Prod.lex Nat.lt_wfRel Nat.lt_wfRel).wf
+  apply no_infinite_descent wf (fun i => (rank (f i).main, pot F (f i)))
+  intro i
+  obtain ⟨l, hl, hs⟩ := hall i
+  rcases decr_step hok l hl (reachD_all hok (hreach i)) hs with hd | ⟨he, hd⟩
+  · exact Prod.Lex.left _ _ hd
+  · show Prod.Lex Nat.lt Nat.lt (rank (f (i + 1)).main, pot F (f (i + 1))) (rank (f i).main, pot F (f i))
+    rw [he]
+    exact Prod.Lex.right _ hd
+
+/-- **Every call returns, under every scheduling.**  Take any run from a reachable state in which
+    some goroutine takes a protocol step whenever a call is in progress (by `conc_call_not_stuck`
+    that is always possible; which goroutine, in which order, is arbitrary): after finitely many
+    steps `main` is between calls again (or closed) — the Read / cancel / Close has returned, and by
+    `conc_refines_seq` with the right result. -/
+theorem conc_call_returns (F : File) (hok : F.ok) (n : Nat) (f : Nat → DSt) (h0 : ReachD F n (f 0))
+    (hrun : ∀ i, ((f i).main ≠ .idle ∧ (f i).main ≠ .closed) → IStep F (f i) (f (i + 1))) :
+    ∃ i, (f i).main = .idle ∨ (f i).main = .closed := by
+  apply Classical.byContradiction
+  intro hne
+  have hin : ∀ i, (f i).main ≠ .idle ∧ (f i).main ≠ .closed := by
+    intro i
+    constructor
+    · intro h; exact hne ⟨i, Or.inl h⟩
+    · intro h; exact hne ⟨i, Or.inr h⟩
+  exact conc_no_infinite_internal_run F hok n f h0 (fun i => hrun i (hin i))
 
 /-! ### the protocol theorems, for the model with data -/
 
